@@ -63,3 +63,110 @@ Theorem C14_draw_fresh : forall d hs g h g', wf_holes d hs -> reachable d hs g -
   N.land h (fold_left N.lor (map cards (seats g)) (board g)) = 0 /\ board g' = N.lor (board g) h.
 Proof. exact draw_fresh_reachable. Qed.
 Print Assumptions C14_draw_fresh.
+
+(* ===== the draw part (Deck::draw) ===== *)
+(* Props/C14_Draw.v -- property C14 (draw part): drawing from a deck returns each remaining card for
+   exactly one value of the random index (so a uniform index gives a uniform card), the card is
+   removed, and successive draws never repeat a card.
+   Model: Model/Deck.v (walk / draw_at / draw / draws); the loop condition is read from the Rust
+   source through Gen.GenFixes.DECK_DRAW_INCLUSIVE.  nseq' and draws_ok: Spec/DeckSpec.v. *)
+From Coq Require Import NArith List Bool.
+From RP Require Import Base.Bits Gen.GenFixes Gen.GenCards Model.Deck Spec.DeckSpec.
+From RP Require Proofs.C14_Draw.
+Import ListNotations.
+Open Scope N_scope.
+
+(* the repaired loop returns the (i+1)-th lowest set bit of the deck *)
+Theorem C14_draw_is_nth : forall d i, d < 2 ^ 64 -> i < popcount64 d ->
+  draw_at_with true d i = nth (N.to_nat i) (set_bits64 d) 0.
+Proof. exact Proofs.C14_Draw.C14_draw_is_nth. Qed.
+Print Assumptions C14_draw_is_nth.
+
+(* index |-> card enumerates the cards of the deck in ascending order, each exactly once *)
+Theorem C14_draw_bijective : forall d, d < 2 ^ 64 ->
+  map (draw_at d) (nseq' (popcount64 d)) = set_bits64 d.
+Proof. exact Proofs.C14_Draw.C14_draw_bijective. Qed.
+Print Assumptions C14_draw_bijective.
+
+Theorem C14_draw_each_card_once : forall d c, d < 2 ^ 64 -> In c (set_bits64 d) ->
+  exists! i, i < popcount64 d /\ draw_at d i = c.
+Proof. exact Proofs.C14_Draw.C14_draw_each_card_once. Qed.
+Print Assumptions C14_draw_each_card_once.
+
+(* among the popcount64 d equally likely indices exactly one yields a given card of the deck and
+   none yields anything else: the drawn card is uniformly distributed over the deck *)
+Theorem C14_draw_uniform : forall d c, d < 2 ^ 64 ->
+  count_occ N.eq_dec (map (draw_at d) (nseq' (popcount64 d))) c
+  = if N.testbit d c then 1%nat else 0%nat.
+Proof. exact Proofs.C14_Draw.C14_draw_uniform. Qed.
+Print Assumptions C14_draw_uniform.
+
+Theorem C14_every_card_drawable : forall d c, d < 2 ^ 64 -> N.testbit d c = true ->
+  exists i, i < popcount64 d /\ draw_at d i = c.
+Proof. exact Proofs.C14_Draw.C14_every_card_drawable. Qed.
+Print Assumptions C14_every_card_drawable.
+
+(* every card of the full 52-card deck (Hand::mask()) can be the first card dealt *)
+Theorem C14_full_deck_first_card : forall c, c < 52 ->
+  exists i, i < 52 /\ draw_at HAND_MASK_STD i = c.
+Proof. exact Proofs.C14_Draw.C14_full_deck_first_card. Qed.
+Print Assumptions C14_full_deck_first_card.
+
+Theorem C14_draw_in_deck : forall d i, d < 2 ^ 64 -> i < popcount64 d ->
+  N.testbit d (draw_at d i) = true.
+Proof. exact Proofs.C14_Draw.C14_draw_in_deck. Qed.
+Print Assumptions C14_draw_in_deck.
+
+Theorem C14_draw_removes : forall d i, d < 2 ^ 64 -> i < popcount64 d ->
+  let (c, d') := draw d i in
+  N.testbit d' c = false /\
+  (forall k, k <> c -> N.testbit d' k = N.testbit d k) /\
+  popcount64 d' = popcount64 d - 1.
+Proof. exact Proofs.C14_Draw.C14_draw_removes. Qed.
+Print Assumptions C14_draw_removes.
+
+(* successive draws (each index below the current deck size) return pairwise distinct cards of d *)
+Theorem C14_draws_distinct : forall d is, d < 2 ^ 64 -> draws_ok d is ->
+  NoDup (fst (draws d is)) /\
+  Forall (fun c => N.testbit d c = true) (fst (draws d is)) /\
+  length (fst (draws d is)) = length is.
+Proof. exact Proofs.C14_Draw.C14_draws_distinct. Qed.
+Print Assumptions C14_draws_distinct.
+
+(* and the deck that is left is d minus exactly the drawn cards *)
+Theorem C14_draws_remaining : forall d is, d < 2 ^ 64 -> draws_ok d is ->
+  (forall k, N.testbit (snd (draws d is)) k
+             = N.testbit d k && negb (existsb (N.eqb k) (fst (draws d is)))) /\
+  popcount64 (snd (draws d is)) = popcount64 d - N.of_nat (length is).
+Proof. exact Proofs.C14_Draw.C14_draws_remaining. Qed.
+Print Assumptions C14_draws_remaining.
+
+(* draws_ok holds when the j-th index is below size - j (what gen_range(0..size) provides) *)
+Theorem C14_draws_ok_of_bounds : forall is d, d < 2 ^ 64 ->
+  (forall j, (j < length is)%nat -> nth j is 0 + N.of_nat j < popcount64 d) -> draws_ok d is.
+Proof. exact Proofs.C14_Draw.draws_ok_of_bounds. Qed.
+Print Assumptions C14_draws_ok_of_bounds.
+
+(* Deck::hole: the two hole cards differ *)
+Theorem C14_hole_distinct : forall d i j, d < 2 ^ 64 -> i < popcount64 d -> j + 1 < popcount64 d ->
+  exists a b, fst (draws d [i; j]) = [a; b] /\ a <> b /\
+              N.testbit d a = true /\ N.testbit d b = true.
+Proof. exact Proofs.C14_Draw.C14_hole_distinct. Qed.
+Print Assumptions C14_hole_distinct.
+
+(* with the original loop (`ones < i`) indices 0 and 1 collide and the top card is never drawn:
+   C14_draw_bijective depends on the generated flag *)
+Example C14_needs_inclusive :
+  popcount64 11 = 3 /\ set_bits64 11 = [0; 1; 3] /\
+  draw_at_with false 11 0 = 0 /\ draw_at_with false 11 1 = 0 /\ draw_at_with false 11 2 = 1 /\
+  ~ In 3 (map (draw_at_with false 11) (nseq' (popcount64 11))) /\
+  map (draw_at_with true 11) (nseq' (popcount64 11)) = [0; 1; 3].
+Proof. exact Proofs.C14_Draw.C14_needs_inclusive. Qed.
+Print Assumptions C14_needs_inclusive.
+
+(* the hypotheses are satisfiable: the 3-card deck {0, 1, 3} *)
+Example C14_draw_hyps_sat :
+  11 < 2 ^ 64 /\ 2 < popcount64 11 /\ draw_at 11 2 = 3 /\ In 3 (set_bits64 11) /\
+  draw 11 2 = (3, 3) /\ draws_ok 11 [2; 0; 0] /\ draws 11 [2; 0; 0] = ([3; 0; 1], 0).
+Proof. exact Proofs.C14_Draw.C14_draw_hyps_sat. Qed.
+Print Assumptions C14_draw_hyps_sat.
